@@ -26,14 +26,14 @@ TEXT = {
          "8-bit layouts, precision <= 9, from_utf8 stubbed; the early-trim defect found this way was fixed (known_findings.json)"),
  "C11": ("Both back ends verify under the checking semantics (overflow checks, shift checks, debug assertions of the dev-profile expansion); this check owns the panic-class obligations of all Verus units and of the listed Kani harnesses: when every such site is discharged under the function's precondition, no check can fire and the unchecked build computes the same value",
          "only functions under contract are covered; evidence.public_fn_coverage lists the public functions under Verus contract, exercised by Kani only, and not covered"),
- "C12": ("Verus verifies sqrt, exp, pow, powi, ln, log2, sin, cos as written, generic over all supported types, against trait-level contracts (no panic-class obligation left; conventions as postconditions); Kani proves sin/cos/tan/sqrt/log2/ln/exp total on I9F23 (whole domain) and sin/cos/exp on wider types for the stated ranges",
-         "trait-level contracts and conversion/comparison axioms assumed (listed); log2_inner and cordic_rotation (iterator adapters) and tan: Kani per instantiated type"),
+ "C12": ("Verus verifies sqrt, exp, pow, powi, ln, log2, sin, cos and the helpers log2_inner, rs, cordic_rotation as written, generic over all supported types, against trait-level contracts (no panic-class obligation left; conventions as postconditions; loop invariants for Newton, the two log2 loops and the CORDIC growth bound); Kani proves sin/cos/tan/sqrt/log2/ln/exp total on I9F23 (whole domain resp. the stated ranges) and sin/cos/exp on wider types for the stated ranges",
+         "trait-level method contracts are copied from the text proved per family (traitfwd); operator axioms proved per family by link traits; conversion / comparison axioms with the I9F23 constants and ax_bits_ops (primitive Bits type) assumed (listed); tan: Kani on I9F23 only; extraction rules R16 (unused .rev()), R18 (zip-index), R19 (exec const table)"),
  "C13": ("Verus verifies the real generic sqrt, for every supported pair of types, against the integer bracket (r - 4)^2 <= X * 2^F <= (r + 4)^2 (|r - sqrt x| <= 4 ulp), exactness at 0 and 1, non-negativity, and Err only for negative operands / unrepresentable reciprocals: the Newton loop carries the invariant that the distance to the integer square root at least halves per step, the reciprocal path a nonlinear bracket lemma; all lemmas machine-checked, no admit",
          "trait-level contracts of Fixed and the conversion / comparison axioms are assumed here (proved in other units / by Kani); holds for the tree with the trip-count fix 164c3b4 (known_findings.json) - the pre-fix loop count fails the final-step obligation; no SAT twin (64-bit dividers), so violations come without a failing input"),
  "C15": ("PARTIAL, level other: Verus proves, on the real generic powi and pow for every supported type pair and every i32 exponent, the clauses a contract can express - the powi error bound |r * one^(n-1) - X^n| <= (n - 1) * max(one, |X|)^(n-1) (implies the stated (|n|+1) ulp * max(1,|x|)^(|n|-1)), the truncated-reciprocal form for negative exponents, and the conventions 0^y = 0, x^0 = 1, x^1 = x of pow and powi.  The exp / pow accuracy clauses need e^x and x^y over the reals and are not decided by any contract within reach; they are listed as not covered rather than sampled",
          "exp and pow accuracy: not covered (a change that only degrades their accuracy passes this check); trait-level contracts and conversion axioms assumed (listed)"),
- "C17": ("Verus: a ghost iteration counter (R14) in sqrt, exp and sin, generic over every supported type, with `assert(vticks <= 4*w+64)` at every exit and `decreases bound - vticks` on while/loop; Kani asserts the hook iteration counter <= 4*width+64 after every call (whole domain on I9F23, I32F32 in thorough)",
-         "counter hook lines in transcendental.rs (guarded); log2_inner / cordic_rotation counted by Kani per type only; the sin range-reduction defect was fixed"),
+ "C17": ("Verus: a ghost iteration counter (R14) in sqrt, exp, sin, log2_inner, cordic_rotation, generic over every supported type, with the bound asserted at every exit and `decreases bound - vticks` on while/loop; log2, ln, pow, cos add their callees' proved bounds at the call sites (pow: 3w+2 <= 4w+64); Kani asserts the hook iteration counter <= 4*width+64 after every call (whole domain on I9F23, I32F32 in thorough)",
+         "counter hook lines in transcendental.rs (guarded); tan counted by Kani on I9F23 only; the ghost counter is added at call sites by the template, not carried by callee contracts; the sin range-reduction defect was fixed"),
  "C10": ("Kani runs the real parity-scale-codec derive for one alias per family over all bit patterns: encode == to_le_bytes == encoding of the bits, max_encoded_len, decode round trip, short input fails, byte views inverse",
          "the derive does not mention Frac (one alias per family); memcpy-sized loops closed by unwinding assertions; serde not built"),
  "C18": ("Verus, generic over F: every operator impl and inherent method of Wrapping<F> (226 functions, incl. 288 shift impls with the amount reduced modulo the width) against trait-level contracts of Fixed; per family: the `impl Fixed` forwarders meet those contracts, the integer-rhs impls, and shifts / bit operators of F with mathematical postconditions; Kani proves the same operators end to end on 8-bit layouts, plus sum/product folds and parsing forwarders",
